@@ -98,7 +98,7 @@ def generate(tier: str, only=None) -> Iterator[dict]:
             seqs += list(itertools.product(CORE, repeat=4)) if init_i < 3 else []
         else:
             seqs = list(itertools.chain.from_iterable(itertools.product(range(n), repeat=r) for r in range(0, 2)))
-            seqs += list(itertools.product(range(n), repeat=2)) if init_i in (0, 1, 4, 6) else []
+            seqs += list(itertools.product(range(n), repeat=2)) if init_i in (0, 1, 4, 6, 7) else []
             seqs += list(itertools.product(CORE[:6], repeat=3)) if init_i in (0, 1) else []
         seen = set()
         for seq in seqs:
@@ -160,7 +160,7 @@ def main(tier: str, seed: int, only=None) -> int:
     report = Report(ID, LEVEL, tier, seed)
     common.drive(report, MOD, generate(tier, only), opts={"sanitize": True, "host_timeout": 5.0}, batch_size=40,
                  bad=("violation", "transpile_crash", "transpile_timeout"))
-    report.bounds = {"inits": len(INITS), "ops": len(OPS), "sequences": "quick: all k<=1, all k=2 for 4 inits, k=3 over a 6-op core for 2 inits; thorough: all k<=2, k=3 over a 16-op core, k=4 over a 9-op core for 3 inits", "placements": "setup / loop / shared", "passes": 4}
+    report.bounds = {"inits": len(INITS), "ops": len(OPS), "sequences": "quick: all k<=1, all k=2 for 5 inits, k=3 over a 6-op core for 2 inits; thorough: all k<=2, k=3 over a 16-op core, k=4 over a 9-op core for 3 inits", "placements": "setup / loop / shared", "passes": 4}
     report.add_sample({"script": build(4, (9, 0), "shared")["src"].splitlines()[6:]})
     return report.finish(
         rule="every history of the bounded alphabet in three placements, firmware built with ASan+UBSan and an interposed allocator, compared with CPython; distinct = distinct firmware texts",
